@@ -1131,6 +1131,11 @@ func (c *c12Ctx) signForRecover(k *c12Key, msg []byte, hk string) (v uint, r, s 
 }
 
 func (c *c12Ctx) recoverFrom(msg []byte, v uint, r, s *big.Int, tag string) {
+	c.recoverKey(msg, v, r, s, tag)
+}
+
+// recoverKey is recoverFrom returning the recovered key object (nil after an error or a panic)
+func (c *c12Ctx) recoverKey(msg []byte, v uint, r, s *big.Int, tag string) signature.PublicKey {
 	p := c.in.newPub()
 	// a key object that already holds a point: a failed recovery must leave it unchanged
 	if len(c.keys) > 0 {
@@ -1156,6 +1161,10 @@ func (c *c12Ctx) recoverFrom(msg []byte, v uint, r, s *big.Int, tag string) {
 		}
 	}
 	c.t.Emit(ev)
+	if pk || err != nil {
+		return nil
+	}
+	return p
 }
 
 func (c *c12Ctx) partEcLattice(thorough bool) {
@@ -1284,6 +1293,33 @@ func (c *c12Ctx) partEcRecover(thorough bool) {
 	}
 }
 
+// partEcOverflowX: signatures whose nonce point has an abscissa in [n, p) (r = x - n is small): reachable through
+// RecoverFrom with the overflow bit of v. The recovered key must verify (r, s) - x mod n = r is what the equation compares.
+func (c *c12Ctx) partEcOverflowX(thorough bool) {
+	if !c.in.recover {
+		return
+	}
+	n := c.in.order
+	tries := 24
+	if thorough {
+		tries = 200
+	}
+	for j := 1; j <= tries; j++ {
+		r := big.NewInt(int64(j))
+		dg := c.r.Bytes(c.in.nb)
+		s := c.r.Below(n)
+		if s.Sign() == 0 {
+			s.SetInt64(1)
+		}
+		for _, v := range []uint{2, 3} {
+			if q := c.recoverKey(dg, v, r, s, "overflow-x"); q != nil {
+				sig := append(c.elemBytesN(r, c.in.nb), c.elemBytesN(s, c.in.nb)...)
+				c.verify(q, sig, dg, "nil", false, "overflow-x")
+			}
+		}
+	}
+}
+
 func (c *c12Ctx) partEcRandom(nev int) {
 	nb, n := c.in.nb, c.in.order
 	k := c.genKey()
@@ -1403,6 +1439,7 @@ func runC12(args []string) {
 					}
 				case "recover":
 					c.partEcRecover(thorough)
+					c.partEcOverflowX(thorough)
 				}
 			}
 			events += c.t.Close()
